@@ -367,6 +367,8 @@ def mon_inbound(tr):
     cur = [0]
     owed = None        # (name, id) owed for the message last returned
     owed_op = -1
+    took = False
+    marker_op, acked_here = {}, set()
     markers = set()
     inbuf = b""
     live = False
@@ -403,6 +405,8 @@ def mon_inbound(tr):
                         (fedq if live else pending).append(d)
         if f and f[0] in ("adopt",):
             owed, fedq, inbuf, live = None, [], b"", False
+        if f and f[0] == "rs" and owed is not None and i > owed_op:
+            took = True        # the application invoked ReadSlices again: the slices of the last message are released
         for l in lines:
             p = l.split()
             if l.startswith("ev dial fail"):
@@ -441,6 +445,7 @@ def mon_inbound(tr):
                 match = benign[0] if benign else (cands[0] if cands else None)
                 if match is not None:
                     fedq = fedq[fedq.index(match) + 1:]
+                    took = False
                     if match["qos"] == 1:
                         owed, owed_op = ("puback", match["id"]), i
                     elif match["qos"] == 2:
@@ -449,9 +454,13 @@ def mon_inbound(tr):
                             out.append(("inbound:second-delivery", "exactly-once message %04x returned again within one delivery cycle" % match["id"]))
                     else:
                         owed = None
+                else:
+                    owed, owed_op = ("?", None), i     # a return this monitor cannot attribute: nothing is concluded about its acknowledgement
             elif l.startswith("ev save "):
                 k = int(p[2], 16)
                 if k >= 0x10000:
+                    if k - 0x10000 not in markers:
+                        marker_op[k - 0x10000] = i
                     markers.add(k - 0x10000)
             elif l.startswith("ev del "):
                 k = int(p[2], 16)
@@ -461,7 +470,9 @@ def mon_inbound(tr):
                 for d in w.add(i, p[2], unhex(p[3])):
                     if d["name"] in ("puback", "pubrec"):
                         name, pid = d["name"], d["id"]
-                        if owed == (name, pid):
+                        if owed == ("?", None):
+                            owed = None
+                        elif owed == (name, pid):
                             if owed_op == i and not any(x.startswith("rs msg") or x.startswith("rs big") for x in lines[lines.index(l):]):
                                 pass
                             if owed_op == i:
@@ -471,11 +482,22 @@ def mon_inbound(tr):
                                     pass
                                 else:
                                     out.append(("inbound:ack-before-ownership", "%s %04x written before the application called ReadSlices again" % (name, pid)))
+                            elif not took:
+                                out.append(("inbound:ack-before-ownership", "%s %04x written during `%s`, before the application called ReadSlices again" % (name, pid, op[:30])))
                             owed = None
-                        elif name == "pubrec" and pid in markers:
-                            pass    # duplicate confirmed again
+                            acked_here.add((i, pid))
+                        elif name == "pubrec" and pid in markers and (marker_op.get(pid, -1) < i or (i, pid) in acked_here):
+                            pass    # duplicate confirmed again: ownership of that message was taken before
                         elif name == "puback" or name == "pubrec":
                             out.append(("inbound:ack-without-return", "%s %04x written without a returned message owing it" % (name, pid)))
+        # "none is returned without eventually being acknowledged": due once the application read again and that call went on
+        # to wait for the broker (or returned the next message) on a connection
+        if f and f[0] == "rs" and owed is not None and owed[1] is not None and i > owed_op and took and lines \
+                and lines[-1].split()[:2] in (["rs", "parked"],) and live and hs_need == 0 \
+                and not any(x.startswith(("ev savefail", "unsupported", "stalled", "hang", "ev close")) for x in lines):
+            out.append(("inbound:never-acknowledged", "the message returned at op %d owes %s %04x; the application read again (op %d) and waits for the broker, no acknowledgement was written"
+                        % (owed_op, owed[0], owed[1], i)))
+            owed = None
     return out
 
 
